@@ -384,6 +384,7 @@ func c08CLI(c *core.Ctx, res *core.Result, w *c08world, name string) {
 		} else {
 			cmd = exec.Command(zygoBin, args...)
 		}
+		core.DieWithParent(cmd)
 		cmd.Dir = c.Work
 		out, _ := cmd.CombinedOutput()
 		res.Evals++
